@@ -409,9 +409,9 @@ def run_shard(spec_, res):
     for k in range(spec_["legacy"]):
         check_legacy(res, chunks, rng, k)
     import rv.api as _api
-    for k in range(max(6, spec_["legacy"] // 4)):
+    for k in range(max(12, spec_["legacy"] // 4)):
         src, is_gen = chunks, False
-        if k % 3:
+        if (k // 3) % 4:            # (the kind of variant goes by k % 3: every kind meets the fixture and generated instruments)
             # ... and generated instruments (envelopes with up to 300 points and arbitrary levels, any sample formats)
             try:
                 gc = workload.module_case(seed, 777000 + spec_["shard"] * 100 + k, tier, "Sampler", ctx="synth")
